@@ -350,7 +350,7 @@ Inductive fres :=
 | FInt (z : Z)        (* float(x) is finite and whole: int(float(x)) *)
 | FFlt (tok : str)    (* finite, not whole: repr token *)
 | FValErr             (* float(x) raises ValueError, or is nan (int(nan) raises ValueError) *)
-| FOvf.               (* +-inf: int(inf) raises OverflowError, which is NOT caught *)
+| FOvf.               (* +-inf: int(inf) raises OverflowError (caught like ValueError since fix C13-ods-nonfinite-number) *)
 Definition float_oracle := str -> fres.
 
 Fixpoint ascii_lower (x : str) : str :=
@@ -358,11 +358,24 @@ Fixpoint ascii_lower (x : str) : str :=
 
 Definition mem3 (x a b c : str) : bool := str_eqb x a || str_eqb x b || str_eqb x c.
 
-(* _extract_cell_value; None = an exception escapes *)
+(* descendants of x in document order, not entering children whose tag is `skip`
+   (_iter_cell_paragraphs: cell comments are left out, fix C13-ods-cell-comment-text) *)
+Fixpoint iter_skip (skip : str) (x : xml) : list xml :=
+  match x with
+  | Elem _ _ _ cs _ =>
+      (fix go (l : list xml) : list xml :=
+         match l with
+         | [] => []
+         | c :: r => (if tag_is skip c then [] else c :: iter_skip skip c) ++ go r
+         end) cs
+  end.
+Definition ods_cell_paras (cell : xml) : list xml := filter (tag_is TEXT_P) (iter_skip OFFICE_ANNOTATION cell).
+
+(* _extract_cell_value (repaired code); the option is kept for uniformity: it is always Some *)
 Definition ods_cell_value (pint : int_oracle) (pflt : float_oracle) (cell : xml) : option val :=
   let vt := xget ATTR_VALUE_TYPE [] cell in
   let text_fallback :=
-    let t := join NL (map (odf_text pint [OFFICE_ANNOTATION]) (iter_tag TEXT_P cell)) in
+    let t := join NL (map (odf_text pint [OFFICE_ANNOTATION]) (ods_cell_paras cell)) in
     if is_nil t then Some VNone else Some (VStr t) in
   let after_num :=
     if str_eqb vt (s "date") && negb (is_nil (xget ATTR_DATE_VALUE [] cell)) then Some (VStr (xget ATTR_DATE_VALUE [] cell))
@@ -375,7 +388,7 @@ Definition ods_cell_value (pint : int_oracle) (pflt : float_oracle) (cell : xml)
     | FInt z => Some (VInt z)
     | FFlt t => Some (VFlt t)
     | FValErr => Some (VStr (xget ATTR_VALUE [] cell))
-    | FOvf => None
+    | FOvf => Some (VStr (xget ATTR_VALUE [] cell))
     end
   else after_num.
 
@@ -459,7 +472,7 @@ Definition ocell_spec (pflt : float_oracle) (c : ocell) : val :=
   | OEmpty => VNone
   | OStr ps => let t := join NL ps in if is_nil t then VNone else VStr t
   | ONum a => if is_nil a then VNone else
-              match pflt a with FInt z => VInt z | FFlt t => VFlt t | FValErr => VStr a | FOvf => VNone end
+              match pflt a with FInt z => VInt z | FFlt t => VFlt t | FValErr => VStr a | FOvf => VStr a end
   | ODate i => if is_nil i then VNone else VStr i
   | OTime i => if is_nil i then VNone else VStr i
   | OBool b => VBool b
